@@ -50,7 +50,7 @@ prop("C20",
 
 prop("C19",
      [r_hdrt.rule_catchall, r_hdrt.rule_total, r_hdrt.rule_steer_lookup, r_hdrt.rule_no_state, r_hdrt.rule_flag_forward,
-      r_sec.rule_end_test],
+      r_sec.rule_end_test, r_sec.rule_scan],
      "Error-discipline analysis of the header loop (reader.parse_header_items_section): the call that parses a raw "
      "line is inside a try with a catch-all handler; by control dependence the handler raises only when "
      "ignore_header_errors is false, then raises LASHeaderError whose message derives (provenance) from the line, "
@@ -74,7 +74,7 @@ prop("C19",
 
 prop("C16",
      [r_wrf.rule_frame, r_wrf.rule_standardize, r_wrf.rule_refresh, r_wrf.rule_determinism, r_wl.rule_measure, r_wl.rule_copy_vers,
-      r_wrf.rule_snapshot],
+      r_wrf.rule_snapshot, r_lp.rule_write_no_state],
      "Frame condition by may-write effect summaries: the set of locations writer.write / LASFile.write may modify "
      "through the LASFile (access paths with aliasing through loop variables and properties, propagated over the "
      "resolved call graph; SectionItems/HeaderItem hooks by contract) is a subset of the documented side effects - "
@@ -171,7 +171,7 @@ prop("C08",
 
 prop("C05",
      [r_sec.rule_scan, r_sec.rule_convention, r_sec.rule_end_test, r_sec.rule_case, r_sec.rule_steer,
-      r_sec.rule_title_pred, r_sec.rule_route, r_sec.rule_reseek, r_sec.rule_section_type],
+      r_sec.rule_title_pred, r_sec.rule_route, r_sec.rule_reseek, r_sec.rule_section_type, r_sec.rule_every_section],
      "Section-interval analysis. The title scan tests every line it reads (every readline() is assigned to the scanned "
      "variable, no nested consumption), advances its counter once per line and records a section start under the title "
      "predicate only (SEC.SCAN); all recorded section ends have the same offset from the boundary line (affine "
@@ -217,7 +217,7 @@ prop("C06",
 prop("C07",
      [r_data.rule_wrap_count, r_data.rule_tokenizer, r_sec.rule_line_normalise, r_data.rule_counter, r_data.rule_reshape,
       r_data.rule_split, r_sec.rule_reseek, r_sec.rule_end_test, r_si.rule_compare, r_sec.rule_content_only_effects,
-      r_data.rule_orient],
+      r_data.rule_orient, r_sec.rule_case, r_sec.rule_steer],
      "Column binding analysis: under the assumption WRAP == YES with declared curves, an explicit-state search of "
      "LASFile.read shows that the n_columns argument of the reference engine is never the per-line count sniffed by "
      "inspect_data_section, and all tests on the WRAP value fold to the same predicate over 9 probe values "
@@ -238,7 +238,8 @@ prop("C07",
 prop("C01",
      [r_data.rule_wrap_count, r_data.rule_wrap_tokens, r_data.rule_null_write, r_data.rule_null_guard, r_data.rule_reshape,
       r_data.rule_counter, r_data.rule_null_flat, r_data.rule_read_subs, r_si.rule_compare, r_num.rule_numlit,
-      r_data.rule_data_format, r_data.rule_wrap_consistent],
+      r_data.rule_data_format, r_data.rule_wrap_consistent, r_wl.rule_ord_table, r_wl.rule_key_norm, r_sec.rule_section_type,
+      r_lp.rule_write_no_state],
      "Write->read pairing clauses: lasio's own wrapped output is re-read with the declared curve count, never the sniffed "
      "per-line count (DATA.WRAP-COUNT, explicit-state search under WRAP == YES); the writer's TextWrapper has "
      "width=data_width, break_long_words=False, break_on_hyphens=False, so lines break only at the blanks between values "
@@ -273,7 +274,7 @@ prop("C09",
 prop("C02",
      [r_sec.rule_convention, r_sec.rule_end_test, r_sec.rule_line_normalise, r_data.rule_orient, r_data.rule_reshape,
       r_sec.rule_reseek, r_sec.rule_scan, r_data.rule_null_flat, r_data.rule_split, r_sec.rule_content_only_effects,
-      r_data.rule_read_subs, r_data.rule_wrap_count, r_data.rule_space_tokens],
+      r_data.rule_read_subs, r_data.rule_wrap_count, r_data.rule_space_tokens, r_data.rule_fast_tokens, r_data.rule_null_table],
      "Engine-agreement clauses: both engines get the same line window - one interval convention for every section end and "
      "the matching affine skip_header = first+1 / max_rows = last-first after seek(0) in the fast engine (SEC.CONVENTION, "
      "SEC.SCAN); the reference engine and the sniffer count every physical line once, test for the section end on every "
@@ -290,7 +291,7 @@ prop("C02",
 
 prop("C04",
      [r_gr.rule_grammar, r_gr.rule_select, r_gr.rule_strip, r_hdrt.rule_no_state, r_num.rule_finite_default, r_sec.rule_route,
-      r_sec.rule_title_pred],
+      r_sec.rule_title_pred, r_wl.rule_hdr_post],
      "Grammar summary by path enumeration: configure_metadata_patterns is enumerated over all consistent outcomes of its "
      "tests (same test text => same truth value), its pattern strings are constant-propagated, and each assembled "
      "pattern list is compared - as a canonical regex structure from re._parser: character classes as sets over a probe "
@@ -313,7 +314,8 @@ prop("C04",
 prop("C03",
      [r_wl.rule_measure, r_wl.rule_order_key, r_wl.rule_orig_mnem, r_wl.rule_template, r_wl.rule_hdr_post,
       r_wl.rule_ord_bijection, r_wl.rule_key_norm, r_gr.rule_grammar, r_gr.rule_select, r_gr.rule_strip, r_wrf.rule_standardize,
-      r_hdrt.rule_no_state, r_si.rule_pk_state, r_num.rule_finite_default, r_num.rule_curve_raw, r_hdrt.rule_steer_lookup],
+      r_hdrt.rule_no_state, r_si.rule_pk_state, r_num.rule_finite_default, r_num.rule_curve_raw, r_hdrt.rule_steer_lookup,
+      r_si.rule_pk_rebuild, r_si.rule_pk_list_restore],
      "Header write->read pairing clauses. Stage order per section in writer.write by CFG reachability: unit alignment / "
      "refresh -> normalisation by standardize_value -> width measurement -> formatting, no later stage followed by an "
      "earlier one (WR.MEASURE); every order lookup in the writer (5 call sites) is keyed by provenance by the item's "
@@ -334,7 +336,8 @@ prop("C03",
 prop("C12",
      [r_wl.rule_ord_table, r_wl.rule_ord_bijection, r_wl.rule_key_norm, r_wl.rule_order_key, r_wl.rule_copy_vers,
       r_wl.rule_measure, r_wl.rule_template, r_num.rule_curve_raw, r_hdrt.rule_steer_lookup,
-      r_data.rule_wrap_consistent, r_data.rule_wrap_tokens, r_data.rule_orient, r_data.rule_reshape, r_data.rule_wrap_count],
+      r_data.rule_wrap_consistent, r_data.rule_wrap_tokens, r_data.rule_orient, r_data.rule_reshape, r_data.rule_wrap_count,
+      r_lp.rule_write_no_state, r_si.rule_pk_rebuild],
      "Order-table agreement: the folded defaults.ORDER_DEFINITIONS has every version the writer admits, all four "
      "sections per version, well-formed (order, mnemonics) exceptions, 1.x ~Well = descr:value except STRT/STOP/STEP/NULL "
      "and 2.x/3.0 = value:descr throughout; reader (SectionParser.__init__) and writer (get_section_order_function) "
@@ -352,7 +355,8 @@ prop("C12",
 prop("C11",
      [r_wl.rule_template, r_wl.rule_measure, r_wl.rule_order_key, r_wl.rule_orig_mnem, r_si.rule_session_only,
       r_si.rule_pk_state, r_wrf.rule_refresh, r_wrf.rule_standardize, r_gr.rule_grammar, r_gr.rule_strip, r_wl.rule_key_norm,
-      r_wl.rule_ord_bijection, r_data.rule_wrap_count, r_data.rule_wrap_tokens, r_data.rule_data_format, r_data.rule_wrap_consistent],
+      r_wl.rule_ord_bijection, r_data.rule_wrap_count, r_data.rule_wrap_tokens, r_data.rule_data_format, r_data.rule_wrap_consistent,
+      r_lp.rule_write_no_state, r_si.rule_pk_rebuild],
      "Necessary conditions of the read->write fixed point only: the writer's template puts '.' directly before the unit "
      "and ' : ' before the tail, which the reader's structurally decided grammar splits back (WR.TEMPLATE, HDR.GRAMMAR) - "
      "no fields migrating between unit, value and description requires also that widths are measured on final values and "
